@@ -23,3 +23,16 @@ func init() {
 		NotCovered: "the arithmetic correctness of the overflow predicates (AddOverflow, MultiplyOverflow, ...) and of math/big themselves: these depend on operand values, not on the shape of the code.",
 	}
 }
+
+func init() {
+	props["C17"] = &PropSpec{
+		Rules:      []string{"hash/counters", "hash/noempty", "hash/liveness"},
+		Decides:    "for the open-addressing tables behind HashMap, HashRecord and HashSet: (1) a population counter is incremented only when the filled slot was empty/tombstone or on a table under construction, occupiedSlots never shrinks, elements-- only next to a tombstone store, so length() equals the number of distinct keys; (2) no function stores the empty marker into an existing table, so deletion cannot cut a probe chain; (3) every liveness test of a HashSet slot recognises both dead markers.",
+		NotCovered: "the probe sequence itself (hash -> start index, wrap-around, termination when the table is full of tombstones), agreement of equality with hashing, and the Go-map-backed native variants.",
+	}
+	props["C24"] = &PropSpec{
+		Rules:      []string{"effect/selfrec"},
+		Decides:    "that no list/tuple operation (nor any other function of the module) is an unconditional self call with unchanged arguments, which would abort the interpreter with an unrecoverable stack overflow.",
+		NotCovered: "sequence semantics (results of index, slice, insert, remove over operation histories); bounds handling of individual operations.",
+	}
+}
